@@ -4,6 +4,7 @@ import XmpProofs.LinFlowSim
 import XmpProofs.LinFlowSimChk
 import XmpProofs.LinFlowSeqs
 import XmpModel.Gen.C18Flags
+import XmpModel.Gen.C18Events
 /-!
 # C18 — the reported duration is exact for modules with linear flow
 
@@ -636,5 +637,22 @@ theorem C18_flag_mismatch_breaks :
     ticks ((exRaw.env false true 0).run 1000) ≠ ((scanSequences (exRaw.decode false)).seqs.getD 0 default).res.durX ∧
     ticks ((exRaw.env false false 0).run 1000) = ((scanSequences (exRaw.decode false)).seqs.getD 0 default).res.durX := by
   decide +kernel
+
+/-! ## the flow effect of an event does not depend on its note column or on the voice its note gets -/
+
+/-- **The player runs an event's flow effect whatever else the event holds** — the LinFlow model reads one flow
+effect per row and ignores notes, instruments and voices; these are the facts about the C that make this sound,
+regenerated from src/read_event.c and src/player.c by `tools/gen_c18_events.py` on every run:
+* in every event reader (`read_event_mod / ft2 / st3 / it / med`) a `return` that comes before the final
+  `libxmp_process_fx` calls either sits in a block that has already called `libxmp_process_fx` (IT: note without a
+  voice, 8cfa942), or is FT2's late-note rule `p->frame >= p->speed` (never true on the first tick of a row, where
+  the flow effects are read) — in particular no reader returns because `set_patch` found no voice;
+* `read_row` rewrites the effect fields of an event only to strip a **note delay** (`MSN(ev.fxp) == EX_DELAY`)
+  next to a key-off with instrument — never a pattern delay or any other flow effect. -/
+theorem C18_events_keep_effects :
+    (∀ r ∈ Gen.C18Events.earlyReturns, r.2.2 = true ∨ (r.1 = "read_event_ft2" ∧ r.2.1 = "p->frame >= p->speed")) ∧
+    (∀ w ∈ Gen.C18Events.readRowFxWrites,
+      "ev.note == XMP_KEY_OFF" ∈ w.1 ∧ "ev.fxt == FX_EXTENDED" ∈ w.1 ∧ "MSN(ev.fxp) == EX_DELAY" ∈ w.1) := by
+  decide
 
 end Xmp.LinFlow
